@@ -330,10 +330,19 @@ def run_crash_case(case: dict) -> dict:
                     sc.spawn(reader, name="reader")
 
                 state["armed"] = True
+                if case.get("io_error"):
+                    # disk full / EIO: a seeded fallible operation of this
+                    # session (and `burst - 1` following ones) fails; Python
+                    # unwinds (the filler's __exit__ runs) and the process
+                    # may die at any instant of that, or right after it
+                    fs.write_fault = dict(case["io_error"])
+                    fs.fallible_ops = 0
                 try:
                     hr.run_session(last)
                     completed += 1
                     probes["crashing_session_completed"] += 1
+                    if fs.write_fault and fs.write_fault.get("fired"):
+                        probes["session_completed_despite_io_error"] += 1
                 except fslayer.SimCrash:
                     hr.model.abort()
                     probes["process_killed"] += 1
@@ -344,20 +353,35 @@ def run_crash_case(case: dict) -> dict:
                         raise state["violation"]
                     hr.model.abort()
                     probes["crashing_session_raised"] += 1
+                    if fs.write_fault and fs.write_fault.get("fired"):
+                        probes["session_raised_after_io_error"] += 1
                 finally:
+                    if fs.write_fault:
+                        wf, fs.write_fault = fs.write_fault, None
+                        if wf.get("fired"):
+                            state["io_error"] = wf.get("first")
+                            probes["io_error_fired"] += 1
+                            probes["io_error_at_" + wf["first"][0]] += 1
                     state["armed"] = False
                     state["over"] = True
                     fs.chunk = 0
                 if state["violation"] is not None:
                     raise state["violation"]
                 sc.drain("drain.reader")
-                if state.get("crashed_at"):
+                if state.get("crashed_at") or state.get("io_error"):
                     # ---------------- restart: a new process on the disk
                     # state the kill left behind writes one more session
                     fs.revive()
                     with fs.suspended():
-                        crash_oracle(hr, tracker, lower, upper, stats,
-                                     "after the kill, before restart")
+                        # (a session that reported success although an I/O
+                        # error was injected has committed all it wrote)
+                        lower_now = {s: list(hr.model.ids(s))
+                                     for s in hr.model.committed}
+                        crash_oracle(hr, tracker, lower_now, upper, stats,
+                                     "after the kill, before restart"
+                                     if state.get("crashed_at") else
+                                     f"after the session hit an I/O error at "
+                                     f"{state.get('io_error')} and unwound")
                     after = case.get("after")
                     if after:
                         hist2 = dict(hist)
@@ -398,7 +422,7 @@ def run_crash_case(case: dict) -> dict:
                         hr = hr2
                 # final state (no crash): everything committed is there
                 with fs.suspended():
-                    if not state.get("crashed_at"):
+                    if not (state.get("crashed_at") or state.get("io_error")):
                         final_lower = {s: list(hr.model.ids(s))
                                        for s in hr.model.committed}
                         crash_oracle(hr, tracker, final_lower, upper, stats,
@@ -471,6 +495,7 @@ def run_crash_case(case: dict) -> dict:
                    "process_killed_and_restarted":
                    probes.get("process_killed", 0),
                    "torn_writes": probes.get("torn_write_instants", 0),
+                   "write_side_io_errors": probes.get("io_error_fired", 0),
                    "concurrent_reader": 1 if reader_out["started_at"]
                    is not None else 0},
         "sample": {"structure": st, "chunk": case.get("chunk"),
@@ -480,6 +505,7 @@ def run_crash_case(case: dict) -> dict:
                         for k, v in s.items()} for s in hist["sessions"]],
                    "crash_instants": state["instants"],
                    "killed_at": state.get("crashed_at"),
+                   "io_error_at": state.get("io_error"),
                    "reader_started_at": reader_out["started_at"]},
     })
     if not out["ok"] and "choices" not in case:
